@@ -71,6 +71,76 @@ func nastyProgram(rng *rand.Rand) []byte {
 	return []byte(s)
 }
 
+// poolProgram: programs assembled from whole lines drawn by category — EQU lines (empty values,
+// references to them, cycles of length one to three, chains), then a FOR line with or without a
+// counter, body lines, ROF, closing lines; any category may be missing or come twice
+var equPool = []string{"e equ", "e2 equ", "b equ e", "c equ e+e2", "d equ b", "a equ a+1", "p equ q", "q equ p", "r equ s", "s equ t", "t equ r+1",
+	"k equ 2", "m equ k*k", "e equ 1", "z equ"}
+var forPool = []string{"for 1", "i for 2", "j for k", "n for e", "lbl i for 1", "i for a", "i for b", "for"}
+var bodyPool = []string{"dat 0", "dat a", "dat b", "dat e", "dat i", "mov m, k", "jmp lbl", "x", "x:", "dat d, z"}
+var closePool = []string{"rof", "rof", "rof", "", "end", "end a", ";assert a", ";assert b", ";assert k == 2", "org b", "rof rof"}
+
+func poolProgram(rng *rand.Rand) []byte {
+	var ls []string
+	pick := func(pool []string, lo, hi int) {
+		for k := lo + rng.Intn(hi-lo+1); k > 0; k-- {
+			ls = append(ls, pool[rng.Intn(len(pool))])
+		}
+	}
+	pick(equPool, 0, 5)
+	if rng.Intn(4) == 0 {
+		pick(bodyPool, 0, 2)
+	}
+	for blocks := rng.Intn(3); blocks > 0; blocks-- {
+		pick(forPool, 1, 1)
+		pick(bodyPool, 0, 2)
+		if rng.Intn(4) == 0 {
+			pick(equPool, 1, 1)
+		}
+		pick(closePool, 1, 1)
+	}
+	pick(bodyPool, 0, 2)
+	pick(closePool, 0, 2)
+	s := strings.Join(ls, "\n") + "\n"
+	if rng.Intn(6) == 0 {
+		s = strings.TrimSuffix(s, "\n")
+	}
+	return []byte(s)
+}
+
+// spoiled: a well-formed program with FOR blocks into which ONE token the lexer or a state
+// machine does not expect at that place is inserted, at the end of a line, at its start, or
+// between two of its words (`rof = 1`, `i for 2 !`, `= dat 0`, a stray `rof`, `for`, `,`)
+func spoiled(rng *rand.Rand, legacy bool) []byte {
+	items, _ := genForProgram(rng, legacy)
+	text := string(render(rng, items, rng.Intn(2) == 0))
+	ls := strings.Split(text, "\n")
+	junk := []string{"=", "= 1", "|", "&", "!", "~", "\"", "\x00", "\x1a", ",", ":", ";", "rof", "for", "for 2", "equ", "end", "(", ")", "==", "1 2", "é", "\xff"}
+	k := 1
+	if rng.Intn(5) == 0 {
+		k = 2
+	}
+	for ; k > 0; k-- {
+		i := rng.Intn(len(ls))
+		j := junk[rng.Intn(len(junk))]
+		switch rng.Intn(4) {
+		case 0, 1:
+			ls[i] = ls[i] + " " + j
+		case 2:
+			ls[i] = j + " " + ls[i]
+		default:
+			ws := strings.Fields(ls[i])
+			if len(ws) > 1 {
+				p := 1 + rng.Intn(len(ws)-1)
+				ls[i] = strings.Join(ws[:p], " ") + " " + j + " " + strings.Join(ws[p:], " ")
+			} else {
+				ls[i] = ls[i] + j
+			}
+		}
+	}
+	return []byte(strings.Join(ls, "\n"))
+}
+
 func mutate(rng *rand.Rand, b []byte) []byte {
 	b = append([]byte{}, b...)
 	k := 1 + rng.Intn(4)
@@ -148,7 +218,11 @@ func genSoup(out *bufio.Writer, rng *rand.Rand, count int) int {
 	}
 	for n < count {
 		cfg := asmConfig(rng, rng.Intn(3) == 0, false)
-		switch r := rng.Intn(10); {
+		switch r := rng.Intn(14); {
+		case r >= 12:
+			emit(cfg, poolProgram(rng))
+		case r >= 10:
+			emit(cfg, spoiled(rng, cfg.Mode == gmars.ICWS88))
 		case r < 3 && len(corpus) > 0:
 			emit(cfg, mutate(rng, corpus[rng.Intn(len(corpus))]))
 		case r < 5:
